@@ -7,13 +7,17 @@ reproduces every recorded state; (b) functional lock-step of the literal sort_tr
 ALL staircase states (every height vector, every busy set) up to the tier's size against the
 real REPEX_state.sort_trajstate.  Oracle: distinct live paths, fresh numbers, non-zero diagonal
 after every step, finite P with unit row/column sums, bounded number of sort swaps, no hang,
-restart files load (restarts are part of the runs).
+restart files load (restarts are part of the runs).  (c) py/c05_enum.py: exhaustive small-system
+exploration of the real REPEX_state under a scripted random generator (every outcome of every random
+decision): all multi-worker start-ups and all "one job finishes" steps from every sorted valid state;
+this is also the stage that searches the implementation for a concrete failing input.
 """
 import importlib.util  # noqa: F401
 import itertools
 
 import numpy as np
 
+import c05_enum as E
 import common
 import repex_trace as T
 from checks import c03
@@ -21,9 +25,9 @@ from checks import c03
 META = {
     "id": "C05",
     "level": "proof",
-    "technique": "Coq invariant proof (perfect matching of the idle block preserved by certified picks, completions and re-sorting, over arbitrary operation sequences) + termination proof of the literal sort_trajstate loop for staircase rows of any size (lexicographic measure, pigeonhole on the matching) + certified trace validation and exhaustive lock-step of the sorting loop against the real code",
-    "text": "Unbounded theorems: in every state reachable by picks that have non-zero probability (certified by a perfect matching through the picked pair), re-issued jobs and completions in any order with any outcome, the idle block of the weight matrix admits a perfect matching; for any idle slot a certified pick exists and is accepted (a job can always be drawn); after every completed step every slot holds a path with non-zero weight there (what load_paths asserts on the restart file written at that moment); live paths are distinct and below the next path number, which never decreases; when the sorting loop returns no slot needs moving. C05_sort_terminates (unbounded): on every state satisfying the exclusivity invariant, with a matchable idle block and staircase weight rows of full length, the literal sort_trajstate loop ends without error within n(n+1)+n+1 swaps, leaves no slot that needs moving and preserves all of this (the first badly placed slot never moves left; while it stays, the row in it gets strictly longer). A bounded exhaustive version (<= 4 plus ensembles) is kept as well. Tie: certified trace validation of the real scheduler()/REPEX_state (as C03) and exhaustive lock-step of sort_trajstate on all staircase states up to 5 (quick) / 6 (thorough) plus ensembles.",
-    "note": "Trusted: Coq kernel; extraction + OCaml driver; harness. Termination of the sorting loop is proved for staircase rows of any size; the staircase hypothesis (and full row length) is evaluated on every recorded real state before re-sorting (counted in the evidence: staircase_states / non_staircase_states); weight rows are staircase (shooting: by construction; wire fencing: when the order parameter does not jump over a whole region — true for the lattice engine). That P_ij > 0 iff (i, j) lies on a perfect matching is perm_pos_iff_matching (C02's domain); here the certificate is computed by the harness and checked by the model.",
+    "technique": "Coq invariant proof (perfect matching of the idle block preserved by certified picks, completions and re-sorting, over arbitrary operation sequences) + termination proof of the literal sort_trajstate loop for staircase rows of any size (lexicographic measure, pigeonhole on the matching) + certified trace validation and exhaustive lock-step of the sorting loop against the real code + exhaustive enumeration of all random outcomes of the real pick()/pick_traj_ens()/prep_md_items start-up and of all one-step completions (treat_output -> sort_trajstate -> restart file) on small systems",
+    "text": "Unbounded theorems: in every state reachable by picks that have non-zero probability (certified by a perfect matching through the picked pair), re-issued jobs and completions in any order with any outcome, the idle block of the weight matrix admits a perfect matching; for any idle slot a certified pick exists and is accepted (a job can always be drawn); after every completed step every slot holds a path with non-zero weight there (what load_paths asserts on the restart file written at that moment); live paths are distinct and below the next path number, which never decreases; when the sorting loop returns no slot needs moving. C05_sort_terminates (unbounded): on every state satisfying the exclusivity invariant, with a matchable idle block and staircase weight rows of full length, the literal sort_trajstate loop ends without error within n(n+1)+n+1 swaps, leaves no slot that needs moving and preserves all of this (the first badly placed slot never moves left; while it stays, the row in it gets strictly longer). A bounded exhaustive version (<= 4 plus ensembles) is kept as well. Tie: certified trace validation of the real scheduler()/REPEX_state (as C03) and exhaustive lock-step of sort_trajstate on all staircase states up to 5 (quick) / 6 (thorough) plus ensembles. Exhaustive small-system families on the REAL REPEX_state (py/c05_enum.py, scripted generator enumerating every outcome with non-zero probability of choice()/random(), DFS): (1) start-up of 2..ensembles-1 workers exactly as scheduler() does it (initiate/prep_md_items/pick_lock/pick/pick_traj_ens) from every loadable staircase set of initial paths (3..5 ensembles complete, 0/1 weights and three integer-weight kinds; 6 ensembles: 2 workers complete, 3..5 workers on a seeded sample in the quick tier) — after every pick the held ensembles/paths are disjoint and consistent with the busy flags, the remaining idle block has a perfect matching (brute force), P evaluates, is finite and has unit row/column sums; an exception in a pick is a stall; (2) from every such state with one worker (3..6 ensembles) or two workers (3..5) one job, then the other, finishes through loop()/treat_output() with every outcome (rejected, accepted with every reach legal for the ensemble): sorting terminates, every idle live path has non-zero weight where it sits, live paths distinct, numbers fresh, P fine, idle block matchable, the restart.toml written by that treat_output has the live order and the in-flight jobs and loads through REPEX_state + load_paths; the state at entry of every such sort_trajstate is also given to the extracted model (lock-step). The decision sequence is reported as the failing input.",
+    "note": "Trusted: Coq kernel; extraction + OCaml driver; harness. Termination of the sorting loop is proved for staircase rows of any size; the staircase hypothesis (and full row length) is evaluated on every recorded real state before re-sorting (counted in the evidence: staircase_states / non_staircase_states); weight rows are staircase (shooting: by construction; wire fencing: when the order parameter does not jump over a whole region — true for the lattice engine). That P_ij > 0 iff (i, j) lies on a perfect matching is perm_pos_iff_matching (C02's domain); here the certificate is computed by the harness and checked by the model. The exhaustive families use stand-in path objects (only the attributes REPEX_state reads) with prescribed staircase weights (powers of two, so the permanent code is exact), a stand-in PathStorage, and explore by saving/restoring the fields of the REPEX_state object; every reported failure and a sample of the visited states are re-run from scratch with the full script and must reproduce.",
     "design_ref": "4/C05",
 }
 LEVEL = "proof"
@@ -74,6 +78,24 @@ def real_sort(hs, lk):
     return f"OK {W} {Tn} {count[0]}"
 
 
+def sort_oracle(impl, lk):
+    """C05 on the result of the real sort_trajstate: every idle slot holds a path with non-zero weight
+    there, paths distinct.  Returns a description of what fails or None."""
+    if not impl.startswith("OK"):
+        return f"sort_trajstate ends with {impl}"
+    _, W, Tn, _ = impl.split(" ")
+    rows = [[int(x) for x in r.split(",")] for r in W.split(";")]
+    tr = Tn.split(",")[:-1]
+    if len(set(tr)) != len(tr):
+        return f"live paths not distinct after sorting: {tr}"
+    for i in range(len(rows) - 1):
+        busy = lk[i] if i < len(lk) else 1
+        if not busy and rows[i][i] == 0:
+            return (f"after sort_trajstate idle path p{tr[i]} sits in slot {i} where its weight is zero "
+                    f"(row {rows[i][:-1]}; a restart file written now does not load: assert valid[ens] != 0)")
+    return None
+
+
 def run(ctx):
     c03.run(ctx, "C05")
     runner = common.runner_stage(ctx, "repex")
@@ -105,7 +127,12 @@ def run(ctx):
         impl = real_sort(hs, lk)
         ctx.count(("sort", hs, lk), nontrivial=not out.endswith(" 0"))
         ctx.dist(f"sort:m{len(hs)}")
-        if impl != out and nbad < 5:
+        orc = sort_oracle(impl, lk)
+        if orc is not None and impl.startswith("OK") and nbad < 5:
+            nbad += 1
+            ctx.violation(f"C05 statement fails on the implementation: {orc}; valid staircase state heights {hs} busy {lk}",
+                          {"sort": {"heights": hs, "busy": lk}, "impl": impl, "model": out}, found_input=True)
+        elif impl != out and nbad < 5:
             nbad += 1
             found = not impl.startswith("OK")
             ctx.violation(f"sort_trajstate: model {out[:80]} vs implementation {impl[:80]} on heights {hs} busy {lk}",
@@ -116,11 +143,75 @@ def run(ctx):
                           {"sort": {"heights": hs, "busy": lk}, "impl": impl}, found_input=True)
     ctx.cov["correspondence"]["sort_states"] = len(reqs)
     ctx.cov["rule"] += "; C05: plus one evaluation per staircase state given to both the literal model loop and the real sort_trajstate (non-trivial when at least one swap is needed)"
+    enum_stage(ctx, runner)
+    # concrete failing inputs first
+    ctx.violations.sort(key=lambda v: not v[2])
+
+
+def enum_stage(ctx, runner):
+    """Exhaustive small-system exploration of the real REPEX_state (py/c05_enum.py)."""
+    cases, results = E.run_all(ctx.tier, ctx.rng)
+    keys = ("runs", "picks", "zero_swaps", "states", "leaves", "steps", "step_swaps", "step_nontrivial", "scratch_checks")
+    agg = {k: 0 for k in keys}
+    agg["max_decisions"] = 0
+    sorts = {}
+    fails = []
+    nerr = 0
+    for case, r in zip(cases, results):
+        fam = "startup" if case["steps"] == 0 else "step"
+        ctx.dist(f"enum-{fam}:E{case['n_ens']}:W{case['workers']}:{case['kind']}")
+        if r is None or isinstance(r, tuple):
+            if nerr < 2:
+                nerr += 1
+                ctx.violation(f"harness failure in the exhaustive exploration of {case}: {str(r)[:300]}",
+                              {"enum_case": case, "error": str(r)[-3000:]}, found_input=False)
+            continue
+        for k in keys:
+            agg[k] += r[k]
+        agg["max_decisions"] = max(agg["max_decisions"], r["max_decisions"])
+        ctx.count(("enum", repr(case)), nontrivial=(r["picks"] + r["steps"]) > 0, n=r["picks"] + r["steps"])
+        for req, ans in r["sorts"].items():
+            sorts.setdefault(req, (ans, case))
+        fails += r["failures"]
+    fails.sort(key=lambda f: (f["case"]["n_ens"], f["case"]["workers"], len(f["script"]) + len(f["completions"]), f["case"]["kind"] != "01"))
+    seen = set()
+    for f in fails:
+        # one report per kind of failure (the smallest input first), at most four
+        sig = (f["family"], f["problems"][0][:40])
+        if sig in seen or len(seen) >= 4:
+            continue
+        seen.add(sig)
+        what = ("start-up of the workers" if f["family"] == "startup" else "one completed step")
+        ctx.violation(f"C05 statement fails on the implementation ({what}, all random outcomes enumerated): {f['problems'][0][:230]} "
+                      f"|| input: {E.describe(f['case'])[:150]} || decisions: {' / '.join(f['decisions'])}",
+                      {"enum": f}, found_input=True)
+    # lock-step of every sort_trajstate call of the step family with the extracted model
+    reqs = sorted(sorts)
+    outs = runner.run(reqs) if reqs else []
+    nbad = 0
+    for req, out in zip(reqs, outs):
+        impl, case = sorts[req]
+        if impl != out and nbad < 3:
+            nbad += 1
+            ctx.violation(f"sort_trajstate inside treat_output: model {out[:90]} vs implementation {impl[:90]} on {req[:120]}",
+                          {"sort_request": req, "model": out, "impl": impl, "enum_case": case}, found_input=False)
+    ctx.cov["correspondence"]["enum"] = {"cases": len(cases), **agg, "sort_lockstep_states": len(reqs)}
+    ctx.cov["rule"] += ("; exhaustive exploration: one evaluation per pick of the real start-up (all outcomes of choice()/random() with non-zero "
+                        "probability) and per completed step (treat_output with every outcome), each judged by the C05 oracle")
+    ctx.sample({"enum_case": cases[len(cases) // 2]})
+    ctx.cov["trusted_base"] += ["py/c05_enum.py: scripted generator, stand-in paths/PathStorage, save/restore exploration (failures re-run from scratch)"]
+    ctx.assumptions += ["exhaustive families: staircase weight rows (0/1 and three power-of-two integer kinds), 3..6 ensembles; "
+                        "a decision is enumerated when the probability the code hands to choice() is > 0"]
 
 
 def replay(doc):
     import sysharness as H
     rp = doc["replay"]
+    if "enum" in rp:
+        return E.replay_failure(rp["enum"])
+    if "sort_request" in rp:
+        print("model", rp["model"], "impl", rp["impl"])
+        return 1
     if "sort" in rp:
         print(real_sort(tuple(rp["sort"]["heights"]), tuple(rp["sort"]["busy"])))
         return 0
